@@ -456,3 +456,165 @@ Proof.
     + rewrite T. intro H; inversion H; subst. eauto.
   - rewrite tx_get_del_eq. discriminate.
 Qed.
+
+Lemma step_disjoint sch d c o : locks_disjoint d -> locks_disjoint (fst (step sch d c o)).
+Proof.
+  intros D c1 c2 x1 x2 k N T1 T2 I1 I2.
+  destruct (Nat.eq_dec c1 c) as [->|N1].
+  - rewrite step_leaves_other_transactions in T2 by auto.
+    destruct (step_locks_origin sch d c o x1 k T1 I1) as [[x [T I]]|H].
+    + exact (D c c2 x x2 k N T T2 I I2).
+    + exact (others_hold_false _ _ _ _ _ H (not_eq_sym N) T2 I2).
+  - rewrite step_leaves_other_transactions in T1 by auto.
+    destruct (Nat.eq_dec c2 c) as [->|N2].
+    + destruct (step_locks_origin sch d c o x2 k T2 I2) as [[x [T I]]|H].
+      * exact (D c1 c x1 x k N T1 T I1 I).
+      * exact (others_hold_false _ _ _ _ _ H N1 T1 I1).
+    + rewrite step_leaves_other_transactions in T2 by auto.
+      exact (D c1 c2 x1 x2 k N T1 T2 I1 I2).
+Qed.
+
+(* (b) over ALL schedules: two open transactions never hold a lock on the same row *)
+Theorem locks_always_disjoint sch rows auto l :
+  locks_disjoint (run sch {| d_rows := rows; d_auto := auto; d_txs := [] |} l).
+Proof.
+  assert (G : forall l d, locks_disjoint d -> locks_disjoint (run sch d l)).
+  { clear. induction l as [|[c o] l IH]; intros d D; cbn; auto. apply IH, step_disjoint, D. }
+  apply G. intros c1 c2 x1 x2 k _ T. discriminate.
+Qed.
+
+(* (d) after COMMIT / ROLLBACK / close the connection holds no lock: it has no
+   transaction, and only transactions hold locks *)
+Theorem finished_transaction_holds_no_lock sch d c o :
+  o = OCommit \/ o = ORollback \/ o = OClose -> tx_of (fst (step sch d c o)) c = None.
+Proof.
+  intros [->|[->| ->]].
+  - apply commit_installs_working_copy.
+  - apply (rollback_discards sch d c ORollback); auto.
+  - apply (rollback_discards sch d c OClose); auto.
+Qed.
+
+(* ================================================================ (c) savepoints *)
+Definition stmts_of (c : nat) (l : list (nat * op)) : Prop :=
+  forall c' o, In (c', o) l -> c' = c -> exists s a, o = OStmt s a.
+
+(* SAVEPOINT n; any schedule in which c itself only runs statements (the other
+   connections do whatever they like); ROLLBACK TO n: c's writes and c's lock
+   set are exactly those at the SAVEPOINT *)
+Theorem rollback_to_restores_savepoint sch d0 c x0 n l :
+  tx_of d0 c = Some x0 -> stmts_of c l ->
+  let d2 := run sch (fst (step sch d0 c (OSave n))) l in
+  exists x, tx_of (fst (step sch d2 c (ORollbackTo n))) c = Some x /\
+            x_ov x = x_ov x0 /\ x_locks x = x_locks x0 /\
+            snd (step sch d2 c (ORollbackTo n)) = ok_out.
+Proof.
+  intros T0 S.
+  set (sp := {| sp_name := n; sp_ov := x_ov x0; sp_nlocks := length (x_locks x0) |}).
+  set (J := fun d => exists x older suf, tx_of d c = Some x /\ x_saves x = sp :: older /\
+                                       x_locks x = x_locks x0 ++ suf).
+  assert (J1 : J (fst (step sch d0 c (OSave n)))).
+  { unfold J, tx_of in *. cbn. rewrite T0. cbn. rewrite tx_get_set_eq.
+    do 3 eexists. split; [reflexivity|]. cbn. split; [reflexivity|]. symmetry. apply app_nil_r. }
+  assert (G : forall l d, stmts_of c l -> J d -> J (run sch d l)).
+  { clear - sp. induction l as [|[c' o] l IH]; intros d S Jd; cbn; auto.
+    apply IH; [intros c1 o1 I; apply S; now right|].
+    destruct (Nat.eq_dec c' c) as [->|N].
+    - destruct (S c o (or_introl eq_refl) eq_refl) as [s [a ->]].
+      destruct Jd as [x [older [suf [T [Sv L]]]]]. unfold J, tx_of in *. cbn. unfold run_stmt.
+      rewrite T. cbn. rewrite tx_get_set_eq.
+      destruct (add_locks_ext (x_locks x) (r_locks (exec_l (others_hold (d_txs d) c) sch
+                  {| ts_rows := view d c; ts_auto := d_auto d |} s a))) as [suf' [E _]].
+      do 3 eexists. split; [reflexivity|]. cbn. split; [exact Sv|].
+      rewrite E, L, <- app_assoc. reflexivity.
+    - destruct Jd as [x [older [suf [T H]]]]. exists x, older, suf. split; auto.
+      rewrite step_leaves_other_transactions; auto. }
+  destruct (G l _ S J1) as [x [older [suf [T [Sv L]]]]].
+  cbv zeta. remember (run sch (fst (step sch d0 c (OSave n))) l) as d2 eqn:E2. clear E2 J1 G.
+  unfold tx_of in *. cbn. rewrite T, Sv. cbn. rewrite bytes_eqb_refl. cbn. rewrite tx_get_set_eq.
+  eexists. split; [reflexivity|]. cbn. repeat split; auto.
+  rewrite L, firstn_app, firstn_all, Nat.sub_diag. cbn. apply app_nil_r.
+Qed.
+
+(* ================================================================ (e) commit order *)
+(* PARTIAL.  What holds for every schedule: the committed rows change only
+   when a transaction commits (then by exactly its overlay) or an autocommit
+   statement runs; with locks_always_disjoint and statement_changes_only_locked_rows
+   the overlays of transactions that are open at the same time touch disjoint keys. *)
+Theorem committed_rows_change_only_at_commit sch d c o :
+  d_rows (fst (step sch d c o)) = d_rows d
+  \/ (exists x, tx_of d c = Some x /\ (o = OCommit \/ o = OBegin) /\
+                d_rows (fst (step sch d c o)) = apply_ov (x_ov x) (d_rows d))
+  \/ (tx_of d c = None /\ exists s a, o = OStmt s a /\
+        d_rows (fst (step sch d c o)) =
+        ts_rows (r_state (exec_l (others_hold (d_txs d) c) sch
+                                 {| ts_rows := d_rows d; ts_auto := d_auto d |} s a))).
+Proof.
+  unfold tx_of. destruct o; cbn; auto.
+  - unfold commit_conn. destruct (tx_get c (d_txs d)) as [x|] eqn:T; cbn; auto.
+    right; left. exists x. auto.
+  - unfold commit_conn. destruct (tx_get c (d_txs d)) as [x|] eqn:T; cbn; auto.
+    right; left. exists x. auto.
+  - unfold run_stmt, view. destruct (tx_get c (d_txs d)) as [x|] eqn:T; cbn; auto.
+    right; right. split; auto. eauto.
+  - destruct (tx_get c (d_txs d)); cbn; auto.
+  - destruct (tx_get c (d_txs d)) as [x|]; cbn; auto.
+    destruct (find_save name (x_saves x)) as [[sp older]|]; cbn; auto.
+  - destruct (tx_get c (d_txs d)) as [x|]; cbn; auto.
+    destruct (find_save name (x_saves x)) as [[sp older]|]; cbn; auto.
+Qed.
+
+(* REFUTED as stated: "no statement got 1205 => the final committed rows are
+   those of running the committed transactions one after another in COMMIT order".
+   READ COMMITTED reads rows it does not lock: T1 = UPDATE t SET a = 1 WHERE b = 0,
+   T2 = UPDATE t SET b = 0 WHERE a = 0 on rows (1, a=5, b=0), (2, a=0, b=5) lock
+   different rows, nobody waits, T2 commits first - and the result is the serial
+   order T1;T2, not the commit order T2;T1 (InnoDB READ COMMITTED behaves the same). *)
+Module CommitOrder.
+Import Coq.Strings.Byte.
+Definition cid := [x69; x64].
+Definition ca := [x61].
+Definition cb := [x62].
+Definition icol n := {| c_name := n; c_ty := TInt MIN_I64 MAX_I64; c_notnull := true;
+                        c_default := None; c_auto := false |}.
+Definition sch : schema := {| s_cols := [icol cid; icol ca; icol cb]; s_pk := [0%nat] |}.
+Definition d0 : dbst :=
+  {| d_rows := [([VInt 1], [VInt 1; VInt 5; VInt 0]); ([VInt 2], [VInt 2; VInt 0; VInt 5])];
+     d_auto := 1; d_txs := [] |}.
+Definition t1 := OStmt (SUpdate [(ca, ELit (VInt 1))] (Some (ECmp CEq (ECol cb) (ELit (VInt 0)))) [] None) [].
+Definition t2 := OStmt (SUpdate [(cb, ELit (VInt 0))] (Some (ECmp CEq (ECol ca) (ELit (VInt 0)))) [] None) [].
+Definition interleaved := [(1, OBegin); (2, OBegin); (1, t1); (2, t2); (2, OCommit); (1, OCommit)]%nat.
+Definition commit_order := [(2, OBegin); (2, t2); (2, OCommit); (1, OBegin); (1, t1); (1, OCommit)]%nat.
+Definition other_order := [(1, OBegin); (1, t1); (1, OCommit); (2, OBegin); (2, t2); (2, OCommit)]%nat.
+
+Fixpoint outcomes (d : dbst) (l : list (nat * op)) : list outcome :=
+  match l with
+  | [] => []
+  | (c, o) :: l' => snd (step sch d c o) :: outcomes (fst (step sch d c o)) l'
+  end.
+
+Example commit_order_equivalence_refuted :
+  outcomes d0 interleaved = [ok_out; ok_out; OkMod 1 0; OkMod 1 0; ok_out; ok_out] /\
+  d_rows (run sch d0 interleaved) <> d_rows (run sch d0 commit_order) /\
+  d_rows (run sch d0 interleaved) = d_rows (run sch d0 other_order).
+Proof. repeat split; vm_compute; congruence. Qed.
+
+(* non-vacuity of the lock theorems: the second writer of the same row gets 1205,
+   changes nothing, and after the first one's ROLLBACK the row is free again *)
+Definition w1 := OStmt (SUpdate [(ca, ELit (VInt 7))] (Some (ECmp CEq (ECol cid) (ELit (VInt 1)))) [] None) [].
+Example lock_conflict_nonvacuous :
+  outcomes d0 [(1, OBegin); (1, w1); (2, w1); (1, ORollback); (2, w1)]%nat =
+    [ok_out; OkMod 1 0; Fail (EErr E_LOCKWAIT); ok_out; OkMod 1 0] /\
+  d_rows (run sch d0 [(1, OBegin); (1, w1); (2, w1); (1, ORollback)]%nat) = d_rows d0 /\
+  all_locks (run sch d0 [(1, OBegin); (1, w1); (2, w1)]%nat) = [[VInt 1]].
+Proof. repeat split; vm_compute; reflexivity. Qed.
+
+(* savepoint: the write and the lock taken after SAVEPOINT are undone by ROLLBACK TO *)
+Definition w2 := OStmt (SUpdate [(ca, ELit (VInt 9))] (Some (ECmp CEq (ECol cid) (ELit (VInt 2)))) [] None) [].
+Example savepoint_nonvacuous :
+  let l := [(1, OBegin); (1, w1); (1, OSave [x73]); (1, w2)]%nat in
+  all_locks (run sch d0 l) = [[VInt 1]; [VInt 2]] /\
+  all_locks (run sch d0 (l ++ [(1%nat, ORollbackTo [x73])])) = [[VInt 1]] /\
+  d_rows (run sch d0 (l ++ [(1%nat, ORollbackTo [x73]); (1%nat, OCommit)])) =
+    [([VInt 1], [VInt 1; VInt 7; VInt 0]); ([VInt 2], [VInt 2; VInt 0; VInt 5])].
+Proof. repeat split; vm_compute; reflexivity. Qed.
+End CommitOrder.
